@@ -49,8 +49,8 @@ class BlockReader {
   BlockReader& operator=(const BlockReader&) = default;
 
   constexpr std::size_t size() const { return size_; }
-  constexpr ValueType operator[](const std::size_t index) const {
-    return data_[index];
+  constexpr std::uint8_t operator[](const std::size_t index) const {
+    return static_cast<std::uint8_t>(data_[index]);
   }
 
  private:
